@@ -125,6 +125,7 @@ type JobResult struct {
 	Switches   int            `json:"switches,omitempty"`
 	SwitchAt   []int          `json:"switch_at,omitempty"` // yield sites at which a task was parked when another was chosen
 	Race       bool           `json:"race,omitempty"`
+	RaceText   string         `json:"race_text,omitempty"`
 	Harness    string         `json:"harness_error,omitempty"`
 	Digest     string         `json:"digest,omitempty"` // hash of every outcome observed (determinism self-test)
 }
@@ -404,8 +405,9 @@ func Main(glues map[string]Glue) {
 		} else {
 			before := raceLogSize(raceLog)
 			runJob(g, j, res)
-			if raceLogSize(raceLog) != before {
+			if after := raceLogSize(raceLog); after != before {
 				res.Race = true
+				res.RaceText = raceLogRead(raceLog, before, after)
 			}
 		}
 		if err := enc.Encode(res); err != nil {
@@ -414,6 +416,20 @@ func Main(glues map[string]Glue) {
 		}
 	}
 	out.Close()
+}
+
+func raceLogRead(prefix string, from, to int64) string {
+	f, err := os.Open(prefix + "." + strconv.Itoa(os.Getpid()))
+	if err != nil {
+		return ""
+	}
+	defer f.Close()
+	if to-from > 16384 {
+		to = from + 16384
+	}
+	buf := make([]byte, to-from)
+	n, _ := f.ReadAt(buf, from)
+	return string(buf[:n])
 }
 
 func raceLogSize(prefix string) int64 {
